@@ -14,7 +14,8 @@ EXPLANATION = ("R14.1 every destructive file-system effect (remove_file, rename,
                "destructive effects are confined to the file-log-writer state modules (plus the two listed append/create_new exceptions). R14.2 also: writer/reader agreement on the suffix (F27), the timestamp predicate parses the WHOLE infix (no remainder), no dot-cut before the fixed part is stripped."
                " R14.4 (shared with R06.4): the name-collision test examines exactly the own candidates (plain, .gz, family restart siblings), not a coarser listing a near miss can enter."
                " R14.5 (shared with R07.4/R07.5): every cleanup path - start-up, synchronous, background thread - filters with the naming state's own infix filter and direct flag, so no path takes files of another pattern for its own."
-               " R14.5 also: the start-up listing of latest_timestamp_file is asked for the configured suffix. R14.2 also: the file-name timestamp reader maps ambiguous local times with a total choice (earliest/latest), so every name the writer produces is recognised.")
+               " R14.5 also: the start-up listing of latest_timestamp_file is asked for the configured suffix. R14.2 also: the file-name timestamp reader maps ambiguous local times with a total choice (earliest/latest), so every name the writer produces is recognised."
+               " R14.6 (shared with R06.2): the start index of number naming is derived from the filtered listing of the family (plain and .gz files, number filter), so near-miss names of foreign files cannot move the numbering.")
 ASSUMPTIONS = ["Path::extension / file_stem / str::strip_prefix semantics (std)", "numbering/timestamp derivation from the filtered listing is C06's subject"]
 NOT_DECIDED = ["that foreign files change nothing about numbering and timestamps for every name set (value dependent)", "metadata preservation"]
 FLOORS = {'R14.1': 10, 'R14.2': 6, 'R14.3': 8}
@@ -52,6 +53,10 @@ def run(R, ctx):
     # infix the writer produces (shared with R06.7)
     _c06.listing_predicates(R, ctx, rule='R14.5', filter_clause=False)
     _c06.timestamp_parse_total(R, ctx, rule='R14.2')
+    # foreign files never disturb the numbering: the start index is derived from the FILTERED listing of the family (plain + .gz, number filter) only,
+    # never from the raw directory scan with a parse of its own (start index rules shared with R06.2)
+    R.rule('R14.6', 'the start index is derived from the filtered family listing only (shared with R06.2)')
+    _c06.start_index(Relabel(R, {'R06.2': 'R14.6'}), ctx)
     _c07.cleanup_filter_provenance(RR, ctx)
 
 
